@@ -153,6 +153,13 @@ class CallMixin:
             ci = self.repo.find_class(rec.cls)
             if ci is None:
                 raise E.Unsupported(f"class {rec.cls}")
+            # method declared as havocked collaborator in the contract?
+            if self.contract is not None:
+                for cn in [rec.cls] + [b for b in self.exc_bases_cls(rec.cls)]:
+                    spec = self.contract.callbacks.get(f"{cn}.{name}")
+                    if spec is not None:
+                        nm = f"{rec.sym or rec.cls}.{name}"
+                        return self.call_callback(VCallback(nm, spec), args, kwargs, node, frame)
             # callee contract?
             cc = self.callee_contract(ci, name)
             if cc is not None:
@@ -184,6 +191,16 @@ class CallMixin:
     def callee_contract(self, ci, name):
         return None
 
+    def exc_bases_cls(self, cls):
+        ci = self.repo.find_class(cls)
+        out = []
+        if ci is not None:
+            for b in ci.bases:
+                bn = b.split(".")[-1].split("[")[0]
+                out.append(bn)
+                out.extend(self.exc_bases_cls(bn))
+        return out
+
     def method_external(self, cls, name):
         return None
 
@@ -204,6 +221,8 @@ class CallMixin:
                     raise E.PyExc(VExc("ValueError"), f"{ci.name}(value)")
                 return self.enum_member(ci.name, members[k][0])
             raise E.Unsupported("enum construction")
+        if ci.name in (self.opt("opaque_ctor") or []):
+            return self.fresh(("obj", ci.name), self.run.fresh_name(f"new {ci.name}"))
         rec = ObjRec(ci.name, {})
         ref = VRef(self.run.alloc(rec), "obj", ci.name)
         init = self.repo.lookup_method(ci, "__init__")
